@@ -1,6 +1,7 @@
 package treemap
 
 import (
+	"strings"
 	"encoding/json"
 	"github.com/emirpasic/gods/v2/containers"
 	rbt "github.com/emirpasic/gods/v2/trees/redblacktree"
@@ -172,4 +173,13 @@ func VHJSONRound() {
 func VHJSONLoad() {
 	c := VGSmall()
 	containers.VJSONLoad(vJSON(c))
+}
+
+// VHString: String() begins with the container's name and is read-only (C15, C18).
+func VHString() {
+	c := VGSmall()
+	v.BeginOp(true, c)
+	s := c.String()
+	v.EndOp()
+	v.Assert(strings.HasPrefix(s, "TreeMap"), "C15:string-begins-with-container-name")
 }
